@@ -125,6 +125,7 @@ class ScriptedApp:
                 raise RuntimeError("lifespan unsupported")
         else:
             prog = self.programs.get(scope.get("path"), self.programs.get("*", [["return"]]))
+            prog = self.programs.get("#%d" % len(self.instances), prog)  # by instance number
         inst = Instance(len(self.instances), scope, self.log)
         inst.receive = receive
         inst.program = prog
